@@ -182,12 +182,22 @@ func GenEpisodes(wt Weights) *rapid.Generator[History] {
 			}
 			return rapid.SampledFrom([]string{"k", "id2", "K"}).Draw(t, "key")
 		}
+		// halves whose admission is put off until the next shell generation has
+		// begun to attach: whatever the broker remembered about them (keys,
+		// counters) has had time to go stale
+		type pa struct {
+			a   int
+			dir string
+		}
+		var deferred []pa
+		flushDeferred := func() {
+			for _, d := range deferred {
+				admit(d.a, d.dir)
+			}
+			deferred = nil
+		}
 		intruders := func(cur string, n int) {
 			// attempts that should mostly be refused, parked and admitted in a drawn order
-			type pa struct {
-				a   int
-				dir string
-			}
 			var parked []pa
 			for i := 0; i < n; i++ {
 				kind := rapid.SampledFrom([]string{KIn, KOut, KIO}).Draw(t, "ikind")
@@ -220,6 +230,10 @@ func GenEpisodes(wt Weights) *rapid.Generator[History] {
 				idx = rapid.Permutation(idx).Draw(t, "iorder")
 			}
 			for _, i := range idx {
+				if rapid.IntRange(0, 5).Draw(t, "defer") == 0 {
+					deferred = append(deferred, parked[i])
+					continue
+				}
 				admit(parked[i].a, parked[i].dir)
 			}
 		}
@@ -256,6 +270,7 @@ func GenEpisodes(wt Weights) *rapid.Generator[History] {
 			case "in+out":
 				in = arrive(KIn, k)
 				admit(in, "input")
+				flushDeferred()
 				if rapid.IntRange(0, 2).Draw(t, "mid") == 0 {
 					intruders(k, rapid.IntRange(1, 2).Draw(t, "nmid"))
 				}
@@ -264,24 +279,29 @@ func GenEpisodes(wt Weights) *rapid.Generator[History] {
 			case "out+in":
 				out = arrive(KOut, k)
 				admit(out, "output")
+				flushDeferred()
 				in = arrive(KIn, k)
 				admit(in, "input")
 			case "io":
 				io = arrive(KIO, "")
 				admit(io, "input")
+				flushDeferred()
 				admit(io, "output")
 				in, out = io, io
 			case "io-rev":
 				io = arrive(KIO, "")
 				admit(io, "output")
+				flushDeferred()
 				admit(io, "input")
 				in, out = io, io
 			case "half-in":
 				in = arrive(KIn, k)
 				admit(in, "input")
+				flushDeferred()
 			case "half-out":
 				out = arrive(KOut, k)
 				admit(out, "output")
+				flushDeferred()
 			}
 			if rapid.IntRange(0, 2).Draw(t, "during") == 0 {
 				intruders(k, rapid.IntRange(1, 3).Draw(t, "nduring"))
